@@ -123,6 +123,12 @@ func goodArg(r *hv.Rng, name string, kind, si int) condh.Arg {
 		if si == 2 {
 			return pick("", "", "", "Day", " ")
 		}
+		if r.Chance(2, 3) {
+			if si == 0 {
+				return pick("203000H", "000000H", "203000Z", "204500h")
+			}
+			return pick("204500H", "235959H", "204500Z", "203000H", "203000h")
+		}
 		return pick("203000H", "204500H", "203000Z", "12 Z", "1 Z", "250000H", "000000", "000000 Z", "000000Zjunk", "235959h", "", "203000A", "123", "12345 Z")
 	}
 	return genArg(r, 1)
